@@ -28,6 +28,7 @@
 (*   C33  verdict \in {"accept","reject"}  (there is no panic action)        *)
 (*   C34  Conserved   C35 SigsOK   C36 FeeSizeOK   C37 BudgetOK              *)
 (*   C38  Breaks(R, T) => reject, one mutation class per implemented rule    *)
+(* EraOrder lists, per era, the checks of validate_<era>_tx in code order.   *)
 (* The state machine below is the checking procedure the harness follows:   *)
 (* validate an (accepted) transaction, mutate it with a rule-specific       *)
 (* mutator, validate again.                                                 *)
@@ -81,69 +82,110 @@ RECURSIVE SumSteps(_)
 SumSteps(rs) == IF rs = <<>> THEN Zero ELSE Add(rs[1].steps, SumSteps(Tail(rs)))
 BudgetOK(T) == T.plutus => Le(SumMem(T.redeemers), T.pp.maxMem) /\ Le(SumSteps(T.redeemers), T.pp.maxSteps)
 
-\* ------------------------------------------------------------ C38
-\* Rules the validator implements, by era.
-ShelleyOn == {"shelley", "allegra", "mary", "alonzo", "babbage", "conway"}
-AlonzoOn == {"alonzo", "babbage", "conway"}
-BabbageOn == {"babbage", "conway"}
-
-RuleEras == [
-    InsNonEmpty |-> ShelleyOn \cup {"byron"}, InsInUtxo |-> ShelleyOn \cup {"byron"},
-    CollInUtxo |-> AlonzoOn, RefInUtxo |-> BabbageOn,
-    ValidityUpper |-> ShelleyOn, ValidityLower |-> AlonzoOn,
-    MinAda |-> ShelleyOn \cup {"byron"}, ValueSize |-> AlonzoOn,
-    OutNetwork |-> ShelleyOn, TxNetwork |-> AlonzoOn,
-    CollateralCount |-> AlonzoOn, CollateralKind |-> AlonzoOn, CollateralAssets |-> AlonzoOn,
-    CollateralAmount |-> AlonzoOn, CollateralAnnotation |-> BabbageOn,
-    MintPolicy |-> {"mary", "alonzo", "babbage", "conway"}, ScriptWitness |-> ShelleyOn,
-    DatumWitness |-> AlonzoOn, RedeemerCoverage |-> AlonzoOn,
-    AuxHash |-> ShelleyOn, ScriptIntegrity |-> AlonzoOn, Language |-> {"conway"} ]
-RuleNames == DOMAIN RuleEras
-Rules(T) == {R \in RuleNames : T.era \in RuleEras[R]}
-
-\* A lower bound of the minimum ada every output must hold, whatever its value: the era's price unit
-\* (T.pp.coinsPerByte: minUTxOValue in Shelley-MA, coins per UTxO word in Alonzo, per byte in Babbage/Conway)
-\* times the units an output costs at least (T.pp.minAdaUnits: 1 | 27 + 1 value word | 160 bytes overhead)
-\* plus, in Alonzo, 10 words for a datum hash (T.pp.dhUnits).  Below this floor the rule is broken for sure.
-MinAdaFloor(T, o) == MulSmall(T.pp.coinsPerByte, T.pp.minAdaUnits + (IF o.dh THEN T.pp.dhUnits ELSE 0))
-
-Avail(T) == Range(T.witScripts) \cup Range(T.refScripts)
-CollNet(T) == Sub(CoinSum(T.coll), T.collReturn.coin)     \* collateral actually paid
+\* ------------------------------------------------------------ the ledger rules, one named predicate each
+\* (C38).  Each predicate is what the rule guarantees of a valid transaction, stated over independently
+\* observed facts; its negation is a SUFFICIENT condition for the rule to be violated (where a rule has
+\* corner cases the property is silent about, the predicate is simply true there, so nothing is claimed).
+Avail(T) == Range(T.witScripts) \cup Range(T.refScripts)     \* hashes of witness-set and reference scripts
+CollNet(T) == Sub(CoinSum(T.coll), T.collReturn.coin)         \* collateral actually paid
 HasAssets(o) == \E i \in 1..Len(o.assets) : ~IsZero(o.assets[i].q)
 DistinctIns(T) == T.nIns - T.insDup
 
-\* Breaks(R, T): a SUFFICIENT condition, over independently observed facts, for
-\* T to violate rule R.  (Only these conditions are demanded -- where a rule
-\* has corner cases the property is silent about, nothing is claimed.)
-Breaks(R, T) ==
-    CASE R = "InsNonEmpty"     -> T.nIns = 0
-      [] R = "InsInUtxo"       -> T.insMissing > 0
-      [] R = "CollInUtxo"      -> T.collMissing > 0
-      [] R = "RefInUtxo"       -> T.refMissing > 0
-      [] R = "ValidityUpper"   -> T.ttl.has /\ Lt(T.ttl.v, T.slot)
-      [] R = "ValidityLower"   -> T.vstart.has /\ Lt(T.slot, T.vstart.v)
-      [] R = "MinAda"          -> \E i \in 1..Len(T.outs) : Lt(T.outs[i].coin, MinAdaFloor(T, T.outs[i]))
-      [] R = "ValueSize"       -> T.pp.maxValSize = 0 /\ T.outs # <<>>
-      [] R = "OutNetwork"      -> \E i \in 1..Len(T.outs) : T.outs[i].net >= 0 /\ T.outs[i].net # T.envNet
-      [] R = "TxNetwork"       -> T.txNet >= 0 /\ T.txNet # T.envNet
-      [] R = "CollateralCount" -> T.plutusWit /\ (T.nColl = 0 \/ T.nColl > T.pp.maxColl)
-      [] R = "CollateralKind"  -> T.plutusWit /\ \E i \in 1..Len(T.coll) : T.coll[i].sh # ""
-      [] R = "CollateralAssets" -> T.plutusWit /\ ~T.collReturn.has /\ \E i \in 1..Len(T.coll) : HasAssets(T.coll[i])
-      [] R = "CollateralAmount" -> T.plutusWit /\ T.nColl > 0 /\ T.collMissing = 0
-                                    /\ Lt(MulSmall(CollNet(T), 100), MulSmall(T.fee, T.pp.collPct))
-      [] R = "CollateralAnnotation" -> T.plutusWit /\ T.nColl > 0 /\ T.collMissing = 0 /\ T.totalColl.has
-                                    /\ ~Eq(T.totalColl.v, CollNet(T))
-      [] R = "MintPolicy"      -> \E p \in Range(T.mintPolicies) : p \notin Avail(T)
-      [] R = "ScriptWitness"   -> \E s \in Range(T.needScripts) : s \notin Avail(T)
-      [] R = "DatumWitness"    -> T.plutus /\ \E d \in Range(T.inDatumHashes) : d \notin Range(T.witDatums)
-      [] R = "RedeemerCoverage" -> (T.redeemers # <<>> /\ ~T.plutus)
-                                   \/ (\E i \in 1..Len(T.redeemers) :
-                                          T.redeemers[i].tag = "Spend" /\ T.redeemers[i].idx >= DistinctIns(T))
-      [] R = "AuxHash"         -> T.auxDeclared # T.auxActual
-      [] R = "ScriptIntegrity" -> (T.sdh = "" /\ T.redeemers # <<>>)
-                                   \/ (T.scriptDataSame /\ T.sdh # T.sdhBase)
-      [] R = "Language"        -> \E x \in Range(T.langsUsed) : x \notin Range(T.pp.langs)
-      [] OTHER -> FALSE
+\* "The set of transaction inputs is not empty"
+InputsNonEmpty(T) == T.nIns > 0
+\* "All transaction inputs, collateral inputs and reference inputs are in the UTxO"
+InputsInUtxo(T) == T.insMissing = 0
+CollateralInUtxo(T) == T.collMissing = 0
+RefInputsInUtxo(T) == T.refMissing = 0
+\* "The block slot is contained in the transaction validity interval"
+NotAfterTtl(T) == T.ttl.has => Le(T.slot, T.ttl.v)
+NotBeforeStart(T) == T.vstart.has => Le(T.vstart.v, T.slot)
+\* "All transaction outputs contain at least the minimum lovelace".  MinAdaFloor is a lower bound of the
+\* minimum every reading of the rule agrees on: the era's price unit (T.pp.coinsPerByte: minUTxOValue in
+\* Shelley-MA, coins per UTxO word in Alonzo, per byte in Babbage/Conway) times the units an output costs at
+\* least (T.pp.minAdaUnits: 1 | 27 + 1 value word | 160 bytes), plus 10 words for a datum hash in Alonzo.
+MinAdaFloor(T, o) == MulSmall(T.pp.coinsPerByte, T.pp.minAdaUnits + (IF o.dh THEN T.pp.dhUnits ELSE 0))
+OutputsHoldMinAda(T) == \A i \in 1..Len(T.outs) : Le(MinAdaFloor(T, T.outs[i]), T.outs[i].coin)
+\* "The size of the value in each of the outputs is not greater than the maximum allowed" (a value takes >= 1 word)
+ValueSizeWithinLimit(T) == T.outs # <<>> => T.pp.maxValSize # 0
+\* "The network ID of each output matches the global network ID" / "... of the transaction body ..."
+OutputNetworksMatch(T) == \A i \in 1..Len(T.outs) : T.outs[i].net >= 0 => T.outs[i].net = T.envNet
+BodyNetworkMatches(T) == T.txNet >= 0 => T.txNet = T.envNet
+\* "Fees" (collateral part; applies when Plutus scripts are in the witness set -- what the validator implements):
+\*  the set of collateral inputs is not empty and not larger than allowed, each is key-locked, the balance
+\*  holds only lovelace, is at least fee * percentage / 100 and equals the annotated total collateral
+CollateralCountOK(T) == T.plutusWit => (T.nColl > 0 /\ T.nColl <= T.pp.maxColl)
+CollateralKeyLocked(T) == T.plutusWit => \A i \in 1..Len(T.coll) : T.coll[i].sh = ""
+CollateralAdaOnly(T) == (T.plutusWit /\ ~T.collReturn.has) => \A i \in 1..Len(T.coll) : ~HasAssets(T.coll[i])
+CollateralSufficient(T) ==
+    (T.plutusWit /\ T.nColl > 0 /\ T.collMissing = 0) => Le(MulSmall(T.fee, T.pp.collPct), MulSmall(CollNet(T), 100))
+CollateralAnnotationExact(T) ==
+    (T.plutusWit /\ T.nColl > 0 /\ T.collMissing = 0 /\ T.totalColl.has) => Eq(T.totalColl.v, CollNet(T))
+\* "Each minted / burned asset can be related to the corresponding native or Plutus script"
+MintPoliciesWitnessed(T) == Range(T.mintPolicies) \subseteq Avail(T)
+\* "Witnesses": scripts of script-locked inputs, datums of Plutus inputs, redeemers <-> scripts
+ScriptsWitnessed(T) == Range(T.needScripts) \subseteq Avail(T)
+DatumsWitnessed(T) == T.plutus => Range(T.inDatumHashes) \subseteq Range(T.witDatums)
+RedeemersPointAtScripts(T) ==
+    /\ T.redeemers # <<>> => T.plutus
+    /\ \A i \in 1..Len(T.redeemers) : T.redeemers[i].tag = "Spend" => T.redeemers[i].idx < DistinctIns(T)
+\* "The auxiliary data of the transaction is valid"
+AuxDataHashMatches(T) == T.auxDeclared = T.auxActual
+\* "The script data integrity hash matches the hash of the redeemers, languages and datums": it is present
+\* when there are redeemers, and for unchanged script data it is the hash the accepted baseline carried
+ScriptIntegrityHashMatches(T) ==
+    /\ T.redeemers # <<>> => T.sdh # ""
+    /\ T.scriptDataSame => T.sdh = T.sdhBase
+\* "The required script languages are included in the protocol parameters"
+LanguagesAvailable(T) == Range(T.langsUsed) \subseteq Range(T.pp.langs)
+
+RuleHolds(R, T) ==
+    CASE R = "InsNonEmpty"     -> InputsNonEmpty(T)
+      [] R = "InsInUtxo"       -> InputsInUtxo(T)
+      [] R = "CollInUtxo"      -> CollateralInUtxo(T)
+      [] R = "RefInUtxo"       -> RefInputsInUtxo(T)
+      [] R = "ValidityUpper"   -> NotAfterTtl(T)
+      [] R = "ValidityLower"   -> NotBeforeStart(T)
+      [] R = "MinAda"          -> OutputsHoldMinAda(T)
+      [] R = "ValueSize"       -> ValueSizeWithinLimit(T)
+      [] R = "OutNetwork"      -> OutputNetworksMatch(T)
+      [] R = "TxNetwork"       -> BodyNetworkMatches(T)
+      [] R = "CollateralCount" -> CollateralCountOK(T)
+      [] R = "CollateralKind"  -> CollateralKeyLocked(T)
+      [] R = "CollateralAssets" -> CollateralAdaOnly(T)
+      [] R = "CollateralAmount" -> CollateralSufficient(T)
+      [] R = "CollateralAnnotation" -> CollateralAnnotationExact(T)
+      [] R = "MintPolicy"      -> MintPoliciesWitnessed(T)
+      [] R = "ScriptWitness"   -> ScriptsWitnessed(T)
+      [] R = "DatumWitness"    -> DatumsWitnessed(T)
+      [] R = "RedeemerCoverage" -> RedeemersPointAtScripts(T)
+      [] R = "AuxHash"         -> AuxDataHashMatches(T)
+      [] R = "ScriptIntegrity" -> ScriptIntegrityHashMatches(T)
+      [] R = "Language"        -> LanguagesAvailable(T)
+      [] OTHER -> TRUE
+Breaks(R, T) == ~RuleHolds(R, T)
+
+\* Phase-1 validation per era: the checks in the order the validator performs them (validate_<era>_tx).
+\* "Preservation" = Conserved (C34), "Witnesses" = SigsOK (C35), "MinFee" / "MaxSize" = FeeSizeOK (C36),
+\* "ExUnits" = BudgetOK (C37); all other names are the structural rules above (C38).
+ShelleyMAOrder == <<"InsNonEmpty", "InsInUtxo", "ValidityUpper", "MaxSize", "MinAda", "Certificates", "Preservation",
+                    "MinFee", "OutNetwork", "AuxHash", "ScriptWitness", "Witnesses", "MintPolicy">>
+AlonzoOrder == <<"InsNonEmpty", "InsInUtxo", "CollInUtxo", "ValidityLower", "ValidityUpper", "MinFee",
+                 "CollateralCount", "CollateralKind", "CollateralAmount", "CollateralAssets", "Preservation", "MinAda",
+                 "ValueSize", "OutNetwork", "TxNetwork", "MaxSize", "ExUnits", "ScriptWitness", "MintPolicy",
+                 "DatumWitness", "RedeemerCoverage", "Witnesses", "AuxHash", "ScriptIntegrity">>
+BabbageOrder == <<"InsNonEmpty", "InsInUtxo", "CollInUtxo", "RefInUtxo", "ValidityLower", "ValidityUpper", "MinFee",
+                  "CollateralCount", "CollateralKind", "CollateralAssets", "CollateralAmount", "CollateralAnnotation",
+                  "Preservation", "MinAda", "ValueSize", "OutNetwork", "TxNetwork", "MaxSize", "ExUnits", "MintPolicy",
+                  "ScriptWitness", "DatumWitness", "RedeemerCoverage", "Witnesses", "AuxHash", "ScriptIntegrity">>
+EraOrder == [
+    byron   |-> <<"InsNonEmpty", "InsInUtxo", "MinAda", "Preservation", "MaxSize", "Witnesses">>,
+    shelley |-> ShelleyMAOrder, allegra |-> ShelleyMAOrder, mary |-> ShelleyMAOrder,
+    alonzo  |-> AlonzoOrder, babbage |-> BabbageOrder, conway |-> BabbageOrder \o <<"Language">> ]
+CoreRules == {"Preservation", "Witnesses", "MinFee", "MaxSize", "ExUnits", "Certificates"}
+\* the structural rules the validator implements in T's era (minting exists from Mary on)
+RuleNames == (UNION {Range(EraOrder[e]) : e \in DOMAIN EraOrder}) \ CoreRules
+Rules(T) == (Range(EraOrder[T.era]) \ CoreRules) \ (IF T.era \in {"shelley", "allegra"} THEN {"MintPolicy"} ELSE {})
 
 BrokenRules(T) == {R \in Rules(T) : Breaks(R, T)}
 
